@@ -2,19 +2,10 @@ import CLModel.Model.Basic
 /-!
 # Group-order scalars (`GroupOrderElement` of `/repo/src/amcl.rs`) — import-free model
 
-A `GroupOrderElement` wraps an amcl `BIG`.  Every constructor reduces modulo the group order
-`r`, but **one operation returns an unreduced value** (`mod_neg(0) = r`, see `neg`), so the
-model keeps the raw natural number held by the `BIG` (`Scalar = Nat`) and every operation
-reduces exactly where the code does.
-
-Outcomes that are not `Ok/Err/panic`:
-* `Res.hang` — the call never returns (`inverse` of a multiple of `r`: amcl's binary
-  `invmodp` shifts `u = 0` right forever);
-* `Res.depDefined` — `from_string` on a hex string whose 288-bit truncation is `≥ r·2^33`:
-  amcl's `rmod` then runs on a `BIG` whose top chunk has reached the sign bit and the result
-  is whatever the dependency does outside its contract (observed: a wrong residue, an
-  unreduced value, or non-termination).  The model states the domain instead of inventing a
-  value.
+A `GroupOrderElement` wraps an amcl `BIG`.  Every constructor and every operation reduces
+modulo the group order `r`; the model keeps the raw natural number held by the `BIG`
+(`Scalar = Nat`) and reduces exactly where the code does, so the theorems can state that
+results are reduced for *arbitrary* raw operands.
 -/
 namespace CL.Sc
 
@@ -23,21 +14,6 @@ def r : Nat := 0x2523648240000001BA344D8000000007FF9F800000000010A10000000000000
 
 /-- raw value of the `BIG` inside a `GroupOrderElement` -/
 abbrev Scalar := Nat
-
-inductive Res where
-  | ok (v : Scalar)
-  | err
-  | panic
-  | hang
-  | depDefined
-deriving Repr, BEq, DecidableEq
-
-def Res.tag : Res → String
-  | .ok _ => "ok"
-  | .err => "err"
-  | .panic => "panic"
-  | .hang => "hang"
-  | .depDefined => "dep_defined"
 
 /-- `add_mod`: `sum.add(r); sum.rmod(ORDER)` -/
 def add (a b : Scalar) : Scalar := (a + b) % r
@@ -49,9 +25,9 @@ def sub (a b : Scalar) : Scalar := (a + r - b) % r
 /-- `mul_mod`: `BIG::modmul` reduces both operands first -/
 def mul (a b : Scalar) : Scalar := (a % r) * (b % r) % r
 
-/-- `mod_neg`: `bn.rmod(ORDER); bn.rsub(ORDER)` — there is no reduction after the reverse
-subtraction, so `neg 0 = r` -/
-def neg (a : Scalar) : Scalar := r - a % r
+/-- `mod_neg`: `bn.rmod(ORDER); bn.rsub(ORDER); bn.norm(); bn.rmod(ORDER)` (the second
+reduction turns `r - 0` into `0`) -/
+def neg (a : Scalar) : Scalar := (r - a % r) % r
 
 /-- amcl `BIG::powmod`: right-to-left square-and-multiply; `a` accumulator, `s` running
 square, `z` remaining exponent.  The first argument is fuel (`bits z ≤ fuel`). -/
@@ -66,10 +42,10 @@ def powMod (b e m : Nat) : Nat := powAux m (e + 1) 1 b e
 /-- `pow_mod` -/
 def pow (a e : Scalar) : Scalar := powMod a e r
 
-/-- `inverse`: amcl `invmodp` (binary extended Euclid) — modelled by its function on the
-units, `a^(r-2)`; it does not terminate when `a ≡ 0`. -/
-def inv (a : Scalar) : Res :=
-  if a % r = 0 then .hang else .ok (pow a (r - 2))
+/-- `inverse`: the operand is reduced first; zero is refused (`Err`); otherwise amcl `invmodp`
+(binary extended Euclid, a dependency) — modelled by its function on the units, `a^(r-2)` -/
+def inv (a : Scalar) : Outcome Scalar :=
+  if a % r = 0 then .err else .ok (pow a (r - 2))
 
 /-- `new_u32` -/
 def newU32 (v : UInt32) : Scalar := v.toNat
@@ -101,18 +77,16 @@ def hexVal : List Char → Option Nat → Option Nat
     | some a, some d => hexVal cs (some (a * 16 + d))
     | _, _ => none
 
-/-- `from_string` = `BIG::from_hex; rmod; norm`.  `from_hex` indexes `val[0..1]` (panic on the
-empty string) and unwraps every digit; the `BIG` keeps 288 bits (top chunk shifted without
-mask), the top one being the sign of the top chunk. -/
-def fromString (s : String) : Res :=
+/-- `from_string`: the empty string, a string with a character that is not a hex digit and a
+string of more than `2·MODBYTES + 7 = 71` digits are refused (`Err`); otherwise
+`BIG::from_hex; rmod; norm` (at most 284 bits: inside the 288 usable bits of a `BIG`) -/
+def fromString (s : String) : Outcome Scalar :=
   match s.toList with
-  | [] => .panic
+  | [] => .err
   | cs =>
     match hexVal cs (some 0) with
-    | none => .panic
-    | some v =>
-      let t := v % 2 ^ 288
-      if t < r * 2 ^ 33 then .ok (t % r) else .depDefined
+    | none => .err
+    | some v => if cs.length > 71 then .err else .ok (v % r)
 
 def hexChar (d : Nat) : Char :=
   if d < 10 then Char.ofNat ('0'.toNat + d) else Char.ofNat ('A'.toNat + d - 10)
